@@ -5,7 +5,7 @@ import re
 from ..core.model import AnchorError, FuncInfo
 from ..core.cfg import walk_shallow, cfg_of
 from ..core.facts import U, atoms_of
-from ..engine import fn_name, kwarg, local_defs, returns_of, stmts_in
+from ..engine import argn, fn_name, kwarg, local_defs, returns_of, stmts_in
 from . import c02, c12
 
 EXPLANATION = (
@@ -79,7 +79,7 @@ def s2(ctx, rep):
         if ok:
             an = next(iter(app))
             call = [c for nid, c in ctx.calls_in(f, method="append") if nid == an][0]
-            idv = U(call.args[0])
+            idv = U(argn(call, 0))
             ok = any(isinstance(d, ast.Call) and fn_name(d) == "new_trial_id" for d in local_defs(f, idv) if not isinstance(d, tuple))
             ok = ok and cfg.path(cfg.entry, an, deleted=a) is None                       # id taken before append
             ok = ok and all(cfg.path(cfg.entry, s, deleted={an}) is None for s in sch)   # appended before scheduling
@@ -365,7 +365,7 @@ def s7(ctx, rep):
     for n_ in sorted(upd):
         for x in cfg.node_walk(n_):
             if isinstance(x, ast.Call) and fn_name(x) == "difference_update" and U(x.func.value) == rv and x.args:
-                a = deref(f, x.args[0])
+                a = deref(f, argn(x, 0))
                 names = {y.id for y in ast.walk(a) if isinstance(y, ast.Name)}
                 ok = names == {nd}
                 rep.put(ok, "S7", "taint", "Tuner.run: the running set is reduced by exactly the trials _process_new_results reported as finished", f, x,
@@ -388,7 +388,7 @@ def s8(ctx, rep):
         and len(loops[0].ast.iter.args) == 1
     busy = None
     if ok:
-        e = loops[0].ast.iter.args[0]
+        e = argn(loops[0].ast.iter, 0)
         ok = isinstance(e, ast.BinOp) and isinstance(e.op, ast.Sub) and U(e.left) == "self.n_workers" and isinstance(e.right, ast.Name)
         busy = e.right.id if ok else None
     rep.put(ok, "S8", "symbolic", "Tuner._schedule_new_tasks: starts n_workers - busy trials per step", f, loops[0].ast if loops else None,
@@ -400,7 +400,7 @@ def s8(ctx, rep):
     srcs = [U(d) for d in defs]
     okd = bool(defs) and all(isinstance(d, ast.Call) and fn_name(d) == "len" for d in defs)
     param = [p for p in f.params if p != "self"][0]
-    okd = okd and all(U(d.args[0]) == param or any("busy_trial_ids" in U(x) for x in local_defs(f, U(d.args[0])) if not isinstance(x, tuple))
+    okd = okd and all(U(argn(d, 0)) == param or any("busy_trial_ids" in U(x) for x in local_defs(f, U(argn(d, 0))) if not isinstance(x, tuple))
                       for d in defs)
     rep.put(okd, "S8", "symbolic", "Tuner._schedule_new_tasks: busy count is len(running set) or len(backend.busy_trial_ids())", f, None, str(srcs))
     # reached only below the threshold, threshold in {n_workers, 1}
